@@ -493,6 +493,7 @@ func init() {
 		if tier == "thorough" {
 			vs = famV4()
 		}
+		vs = append(vs, parseAll([]string{`[{"a":1,"b":2}]`, `[{"a":1,"b":{"a":2,"b":null}},1]`, `{"a":[{"b":1,"a":{"b":2,"a":3}}]}`, `[[{"a":1,"b":2}],{"a":1,"b":2}]`})...)
 		runEqualPairs(ctx, "C06", false, vs, true)
 		runEqualEscapes(ctx, "C06")
 		runEqualMalformed(ctx, "C06", tier)
@@ -577,6 +578,7 @@ func init() {
 		ps := onlyObjs(v2)
 		p2s := append(append([]*rj.Value(nil), ps...), parseAll([]string{`[1]`, `[{"a":null}]`, `[]`})...)
 		ctx.Phase("compose", func() { runCompose(ctx, "C19", true, dedupe(docs), ps, p2s) })
-		ctx.Phase("equal", func() { runEqualPairs(ctx, "C19", true, containersOnly(v2), true) })
+		eqExtra := parseAll([]string{`[{"a":1,"b":2}]`, `[{"a":1,"b":{"a":2,"b":null}},1]`, `{"a":[{"b":1,"a":{"b":2,"a":3}}]}`, `[[{"a":1,"b":2}],{"a":1,"b":2}]`})
+		ctx.Phase("equal", func() { runEqualPairs(ctx, "C19", true, append(containersOnly(v2), eqExtra...), true) })
 	}, true)
 }
